@@ -50,6 +50,10 @@ def run(ctx):
     for sp in (hex((1 << 200) + 1)[2:], hex((1 << 255) - (1 << 130))[2:], hex(3 << 140)[2:]):
         cases.append({"kind": "enc", "d": sp, "mf": 0, "mlen": 19, "ks": [hex(rnd.randrange(1, N))[2:]], "note": "sparse private key"})
         cases.append({"kind": "enc", "d": keys[3], "mf": 0, "mlen": 19, "ks": [sp], "note": "sparse nonce"})
+    # the ends of the nonce range: k = 1 gives C1 = G, k = n - 1 gives C1 = -G (the finite point that shares G's x), k = n - 2
+    for kk in (1, 2, N - 1, N - 2):
+        cases.append({"kind": "enc", "d": keys[3], "mf": 0, "mlen": 19, "ks": [hex(kk)[2:]], "note": "nonce at the end of its range"})
+        cases.append({"kind": "enc", "d": STD_D, "mf": 0, "mlen": 33, "ks": [hex(kk)[2:]], "note": "nonce at the end of its range"})
     # a nonce whose first KDF byte is zero: a 1-byte plaintext must be encrypted under the NEXT nonce
     zk = None
     frows = tlc_table(ctx, [{"kind": "findk", "d": STD_D, "k": k} for k in range(2, 1400)], "findk")
@@ -66,12 +70,12 @@ def run(ctx):
     # the (nonce, length) becomes a case for the specification
     tf, sf = os.path.join(ctx.work, "sweep.json"), os.path.join(ctx.work, "sweep.out.json")
     with open(tf, "w") as f:
-        json.dump({"d": keys[3], "mlens": [2, 3, 32]}, f)
+        json.dump({"d": keys[3], "mlens": [2, 3, 32, 33, 65]}, f)      # (33, 65: a one-byte last block behind full ones)
     ctx.harness(["c02-sweep", tf, str(4000 if thorough else 1000), sf])
     sw = json.load(open(sf))
     for x in sw["odd"]:
         cases.append({"kind": "enc", "d": keys[3], "mf": 0, "mlen": x["mlen"], "ks": [hex(x["k"])[2:], hex(x["k"] + 1)[2:], hex(x["k"] + 2)[2:]], "note": "nonce sweep: " + x["why"][:60]})
-    ctx.log("nonce sweep: %d encryptions of 2 / 3 / 32 bytes, %d handed to the specification" % (sw["encryptions"], len(sw["odd"])))
+    ctx.log("nonce sweep: %d encryptions of 2 / 3 / 32 / 33 / 65 bytes, %d handed to the specification" % (sw["encryptions"], len(sw["odd"])))
     ctx.cov["nonce_sweep_encryptions"] = sw["encryptions"]
     rows = tlc_table(ctx, cases, "enc")
     std = rows_by(rows, cases[0])["expect"]
